@@ -113,6 +113,26 @@ CLAIMS = {
                 "and norm-preservation of rotate follow from the verified transformation law for orthogonal R (theorem, not re-checked).",
         "technique": "algebraic abstract interpretation of the AST + normal-form identity checking",
     },
+    "C13": {
+        "level": "other",
+        "text": "Identities with the eigen-solver as an uninterpreted atom whose argument is the triangle it reads: the solver is applied to "
+                "sum_g a a^T of the row matching the axis letter (a,b,c -> 0,1,2 in both functions, others raise); the scatter matrix is even, "
+                "permutation-symmetric and covariant S(A Q^T) = Q S Q^T for a generic Q; P,G,R formulas and P+G+R == 1 in the ascending "
+                "eigenvalue atoms; Bingham mean = normalised top eigenvector column; coaxial index formula; finite strain from F F^T. The [0,1] "
+                "ranges and eigenvector co-rotation up to sign are NOT decided (PSD/eigen-solver numerics).",
+        "note": "Trusted: eigh/eigvalsh ascending order and lower-triangle default; NumPy semantics of the interpreted subset.",
+        "technique": "algebraic abstract interpretation with library atoms + normal-form identities",
+    },
+    "C15": {
+        "level": "other",
+        "text": "With data-dependent index vectors kept symbolic: both outputs of each snapshot are take(take(x, pi), k) for the same "
+                "permutation pi = argsort(volumes) and the same k = searchsorted(cumsum(volumes[pi]) with last entry pinned to 1, rng.random(n)); "
+                "the generator is seeded from the seed argument and is the only randomness; shapes and the n_samples default; nine malformed "
+                "shape combinations raise ValueError before the generator exists. The sampling law itself is statistical and NOT decided.",
+        "note": "Trusted: NumPy fancy-indexing composition, argsort/searchsorted/Generator.random contracts. The chained-comparison shape test "
+                "that accepted (N,M,1,1)/(N,M,1,3) stacks was repaired (fix: commit in /repo).",
+        "technique": "abstract interpretation with symbolic index/provenance values + effect trace",
+    },
     "C16": {
         "level": "other",
         "text": "CFG-dominance, handler and table rules over pydrex.io: schema validation dominates every header write and every parse; the "
